@@ -488,6 +488,7 @@ func Minimize(t *testing.T, sc func() Scenario, c *Case, class string, budget in
 		func(d *Case) bool { ch := d.Net.EOFData != 0; d.Net.EOFData = 0; return ch },
 		func(d *Case) bool { ch := d.Net.IOYield; d.Net.IOYield = false; return ch },
 		func(d *Case) bool { ch := d.Net.LateWrite; d.Net.LateWrite = false; return ch },
+		func(d *Case) bool { ch := d.Net.CloseErr != 0; d.Net.CloseErr = 0; return ch },
 	}
 	for _, f := range simplify {
 		d := best.Clone()
